@@ -258,7 +258,7 @@ class GEstimationSNM:
                           "model", UserWarning)
 
         miss_model = self._missing_indicator + ' ~ ' + model_denominator
-        fitmodel = propensity_score(self.df, miss_model, print_results=print_results)
+        fitmodel = propensity_score(self.df, miss_model, weights=self._weight_, print_results=print_results)
 
         if stabilized:
             if model_numerator is None:
